@@ -206,6 +206,8 @@ def run_impl(case):
                 cv.append(float(f(list(x))))
             except ZeroDivisionError:
                 cv.append("raises")
+            except OverflowError:
+                cv.append("overflow")               # python's float ** int raises where IEEE gives inf
             except Exception as exc:
                 cv.append("error %s: %s" % (type(exc).__name__, exc))
         obs["cvals"] = cv
@@ -238,6 +240,8 @@ def run_impl(case):
                     cv2.append(float(f(list(x))))
                 except ZeroDivisionError:
                     cv2.append("raises")
+                except OverflowError:
+                    cv2.append("overflow")
                 except Exception as exc:
                     cv2.append("error %s: %s" % (type(exc).__name__, exc))
             obs["cvals_again"] = cv2
@@ -272,8 +276,13 @@ def build_request(case, obs):
     hh = case["h"] if case["h"] is not None else 5
     line = "C14 pen (tol %s) (rel %s) (k %s) (h %s) (n %d) (x %s) (rels (%s)) (conds (%s))" % (
         f2b(tol), f2b(rel), f2b(float(kk)), f2b(float(hh)), case["iter"], fl(obs["point"]), " ".join(rs), " ".join(cs))
+    def _has(e, pred):
+        return isinstance(e, tuple) and (pred(e) or any(_has(t, pred) for t in e[1:]))
+    npfn = any(_has(e, lambda t: t[0] == "app1") for e in exprs)
+    mayraise = any(_has(e, lambda t: t[0] == "/" or (t[0] == "app2" and t[3][0] == "n" and t[3][1] < 0)) for e in exprs)
+    # numpy scalars (the values of sqrt, exp, floor, ..) divide by zero / raise zero to a negative power without raising
     info = {"order": order, "ptypes": pts, "names": names, "K": float(kk) * float(hh) ** case["iter"],
-            "inexact": any(T.inexact(e) for e in exprs)}
+            "inexact": any(T.inexact(e) for e in exprs), "np_mayraise": npfn and mayraise}
     if case.get("join"):
         cond_s = cs
         if case.get("grouping", "pair") == "pair":
@@ -514,7 +523,14 @@ def run_c15types(rng):
         else:
             ops.append((o, None))
     ops.append(("eval", [rng.uniform(-3, 3) for _ in range(n)]))
-    case.update({"text": text, "k": k, "h": h, "ptype": [pts_in, pts_eq], "ops": ops})
+    case.update({"kind": "c15types", "text": text, "k": k, "h": h, "ptype": [pts_in, pts_eq], "ops": ops})
+    return eval_c15types(case)
+
+
+def eval_c15types(case):
+    from mystic import symbolic as S, penalty as P
+    text = case["text"]; k = case["k"]; h = case["h"]; n = case["n"]
+    pts_in, pts_eq = case["ptype"]; ops = [(o[0], o[1]) for o in case["ops"]]
     out = {"case": case, "findings": [], "tag": "ok"}
     kwds = {}
     if k is not None:
@@ -591,14 +607,22 @@ def check_case(case, obs, rep, info, hist=None):
     mc = r[1]["cvals"]
     numpy_inf = False
     for k, (m, c) in enumerate(zip(mc, obs["cvals"])):
-        if m == "raises" and isinstance(c, float) and not math.isfinite(c):
+        if m == "raises" and isinstance(c, float) and (not math.isfinite(c) or info.get("np_mayraise")):
             bump(hist, "condition:raises-vs-numpy-inf"); numpy_inf = True      # numpy scalars divide by zero without raising
+        elif c == "overflow":
+            numpy_inf = True
+            if m != "raises" and math.isfinite(b2f(m)):
+                fs.append(Finding("correspondence", "condition/diverges", "condition %d raised OverflowError, model gives the finite %r" % (k, b2f(m)), cdesc))
+            else:
+                bump(hist, "condition:overflow-vs-inf")
         elif m == "raises" or not isinstance(c, float):
             if not (m == "raises" and c == "raises"):
                 fs.append(Finding("correspondence", "condition/diverges", "condition %d: model %r impl %r" % (k, m, c), cdesc))
         elif not same_float(b2f(m), c):
             if info.get("inexact") and math.isfinite(c) and abs(b2f(m) - c) <= 1e-6 * (1 + abs(c)):
-                bump(hist, "condition:toleranced-inexact-fn")
+                # a last-ulp difference of exp/log/sin/cos/** can flip `c > 0` / `c == 0` (uniform types, '!=' conditions):
+                # the penalties of such a case are not compared
+                bump(hist, "condition:toleranced-inexact-fn"); numpy_inf = True
             else:
                 fs.append(Finding("correspondence", "condition/diverges", "condition %r: model %r impl %r" % (obs["conds"][k][1], b2f(m), c), cdesc))
     mp = b2f(r[1]["pen"])
@@ -746,6 +770,16 @@ def replay(path):
     def tup(t):
         return tuple(tup(u) if isinstance(u, list) else u for u in t)
     case = unj(case)
+    if case.get("kind") == "c15types":
+        out = eval_c15types(case)
+        known = {e["class_key"] for e in framework.load_known(PID)}
+        rc = 0
+        for key, what in out["findings"]:
+            if key in known:
+                print("KNOWN-FINDING: property=%s %s [%s]" % (PID, what, key))
+            else:
+                print("VIOLATION property=%s replay=%s" % (PID, path)); print("  ", key, what); rc = 1
+        return rc
     case["rels2"] = [(tup(r[0]), r[1], tup(r[2])) for r in case["rels2"]]
     case["scheme"] = tuple(case["scheme"])
     if isinstance(case.get("ptype"), list):
@@ -807,5 +841,9 @@ def main(tier, seed):
                    "counted as pen:toleranced-pow; python's OverflowError of c**2 corresponds to the model's inf; pow(h,n) is exact for the "
                    "integer-valued h, n <= 2 used",
                    "zero-iff / positivity on the implementation are checked away from underflow of k*c^2 (|c| > 1e-100, k >= 1e-3)",
-                   "points are python lists of floats (conditions then raise ZeroDivisionError rather than returning inf)"]
+                   "points are python lists of floats (conditions then raise ZeroDivisionError rather than returning inf); numpy scalars - the values "
+                   "of sqrt, exp, floor, .. - do not raise on division by zero / 0**negative: a case whose only difference is that is accepted and "
+                   "counted (condition:raises-vs-numpy-inf), its penalties are not compared",
+                   "exp log sin cos (numpy kernels vs libm) and ** (C pow): 1e-6 tolerance, counted separately; python's compensated sum over more "
+                   "than two joined member penalties: 1e-12, counted (join:*:toleranced)"]
     return framework.finish(PID, tier, seed, t0, proof, run, rule, tb, assumptions, search_more=search_more)
